@@ -37,6 +37,23 @@ NS = "https://g-node.org/odml-rdf#"
 FORMATS = ["xml", "nt", "json-ld", "turtle", "n3"]
 SUBCLASS_TYPES = ["cell", "analysis", "datacite/creator", "analysis/psth"]
 CUSTOM = {"custom/type": "CustomClass", "cell": "OverriddenCell"}
+# an earlier export of the same process with another custom map must not influence a later one
+PRIOR_CUSTOM = {"custom/type": "PriorClass", "other/type": "PriorOther", "cell": "PriorCell",
+                "analysis/psth": "PriorPSTH"}
+
+
+def prescribed_table(sub):
+    """Section type -> RDF class, from the resource file of the library and the map given to *this*
+    writer - computed here, not read back from the writer object."""
+    import yaml
+    path = os.path.join(os.path.dirname(odml.__file__), "resources", "section_subclasses.yaml")
+    with open(path) as fh:
+        table = dict(yaml.safe_load(fh))
+    if sub == "off":
+        return None
+    if sub == "custom":
+        table.update(CUSTOM)
+    return table
 
 DOC_PRED = {"author": "hasAuthor", "date": "hasDate", "version": "hasDocVersion"}
 SEC_PRED = {"name": "hasName", "type": "hasType", "definition": "hasDefinition", "reference": "hasReference"}
@@ -65,6 +82,7 @@ def cases(draw, max_depth):
             "reader": draw(st.sampled_from(["rdfreader_str", "rdfreader_file", "odmlreader_str",
                                             "odmlreader_file"])),
             "sub_types": draw(st.lists(st.sampled_from(SUBCLASS_TYPES + ["custom/type"]), max_size=3)),
+            "prior_export": draw(st.sampled_from([None, None, "custom", "on"])),
             "seed": draw(st.integers(0, 10 ** 6))}
 
 
@@ -298,6 +316,15 @@ def body(case):
     classes = ["format:" + fmt, "writer:" + writer, "reader:" + case["reader"], "subclassing:" + sub,
                "docs:%d" % len(docs)]
     d = env.fresh_dir("c10")
+    prior = case.get("prior_export")
+    if prior:
+        classes.append("prior_export:" + prior)
+        pdoc = odml.Document()
+        for t in ("custom/type", "cell", "other/type"):
+            odml.Section(name=t.replace("/", "-"), type=t, parent=pdoc)
+        with env.quiet_warnings():
+            RDFWriter([pdoc], **({"custom_subclasses": dict(PRIOR_CUSTOM)} if prior == "custom" else {})) \
+                .get_rdf_str("turtle")
     try:
         ext = {"xml": ".rdf", "nt": ".nt", "json-ld": ".jsonld", "turtle": ".ttl", "n3": ".n3"}[fmt]
         path = os.path.join(d, "out" + ext)
@@ -305,15 +332,15 @@ def body(case):
             if writer == "get_rdf_str":
                 w = RDFWriter(docs, **kw)
                 text = w.get_rdf_str(fmt)
-                table = w.section_subclasses if w.rdf_subclassing else None
+                table = prescribed_table(sub)
             elif writer == "write_file":
                 w = RDFWriter(docs, **kw)
                 w.write_file(path, fmt)
-                table = w.section_subclasses if w.rdf_subclassing else None
+                table = prescribed_table(sub)
                 with open(path) as fh:
                     text = fh.read()
             else:
-                table = RDFWriter([]).section_subclasses
+                table = prescribed_table("on")
                 if writer == "odmlwriter_str":
                     text = ODMLWriter("RDF").to_string(docs[0], rdf_format=fmt)
                 elif writer == "odmlwriter_file":
